@@ -11,6 +11,13 @@ theorem wanted_nil_of_le {blob : Blob} {start : Nat} (len : Option Nat) (h : blo
 theorem wanted_length_le (blob : Blob) (start : Nat) (len : Option Nat) : (wanted blob start len).length ≤ blob.length := by
   cases len <;> simp [wanted, slice] <;> omega
 
+/-- what is left of the range after its first `k` bytes is again a range: the one `download_blob(offset + k, length - k)` asks for -/
+theorem wanted_advance (blob : Blob) (o k : Nat) (len : Option Nat) :
+    wanted blob (o + k) (len.map (· - k)) = (wanted blob o len).drop k := by
+  cases len with
+  | none => simp [wanted, List.drop_drop]
+  | some l => simp [wanted, slice, List.drop_take, List.drop_drop]
+
 /-! ### `pieceRead` -/
 
 theorem pieceRead_flatten (ps : List Blob) (n : Nat) :
@@ -257,11 +264,13 @@ theorem fill_spec : ∀ (cs : List Blob) (buf : Blob) (n : Nat),
       simpa [List.append_assoc] using this
     · next h => exact ⟨by simp, fun h' => absurd h' h⟩
 
-/-- `r` = the bytes the stream still owes its reader, as long as `read(-1)` is not called in the middle -/
+/-- `r` = the bytes the stream still owes its reader: always the range `download_blob(_offset, _length)` would deliver now, and,
+while a downloader is open, what is buffered plus what the downloader still holds -/
 def AzGood (blob : Blob) (a : AzSt) (r : Blob) : Prop :=
   if a.eof then r = []
-  else match a.chunks with
-    | none => a.buffer = [] ∧ r = wanted blob a.offset a.length
+  else r = wanted blob a.offset a.length ∧
+    match a.chunks with
+    | none => a.buffer = []
     | some cs => r = a.buffer ++ cs.flatten
 
 theorem az_go_spec (buf : Blob) (cs : List Blob) (n : Nat) :
@@ -301,52 +310,70 @@ theorem az_read_spec (ch : Blob → List Blob) (hch : ∀ b, (ch b).flatten = b)
     simp [AzGood, he]
   · simp only [he] at hg ⊢
     simp only [Bool.false_eq_true, if_false]
+    obtain ⟨hw, hg⟩ := hg
     have core : ∀ (cs : List Blob) (log : List (Nat × Option Nat)), r = a.buffer ++ cs.flatten →
         match (let r' := fill a.buffer cs n
                let data := r'.1.take n
-               if data.length < n then
-                 AzRes.ok data { offset := a.offset + data.length, length := a.length, buffer := [], chunks := none, eof := true, log := log }
+               let len' := a.length.map (· - data.length)
+               if data.length < n ∨ len' = some 0 then
+                 AzRes.ok data { offset := a.offset + data.length, length := len', buffer := [], chunks := none, eof := true, log := log }
                else
-                 AzRes.ok data { offset := a.offset + data.length, length := a.length, buffer := r'.1.drop n, chunks := some r'.2,
+                 AzRes.ok data { offset := a.offset + data.length, length := len', buffer := r'.1.drop n, chunks := some r'.2,
                                  eof := false, log := log }) with
         | .ok b a' => b = r.take n ∧ AzGood blob a' (r.drop n)
         | .eofErr _ => r = []
         | .http416 _ => False := by
       intro cs log hr
       obtain ⟨h1, h2, h3⟩ := az_go_spec a.buffer cs n
-      by_cases hlt : ((fill a.buffer cs n).1.take n).length < n
-      · simp only [hlt, if_true]
-        refine ⟨by rw [hr]; exact h1, ?_⟩
-        have := h2 hlt
-        have hlen : r.length < n := by
-          rw [hr, ← this]; exact hlt
-        simp [AzGood, List.drop_eq_nil_of_le (Nat.le_of_lt hlen)]
-      · simp only [hlt, if_false]
-        refine ⟨by rw [hr]; exact h1, ?_⟩
+      have hdata : (fill a.buffer cs n).1.take n = r.take n := by rw [hr]; exact h1
+      by_cases hcond : ((fill a.buffer cs n).1.take n).length < n ∨
+          a.length.map (· - ((fill a.buffer cs n).1.take n).length) = some 0
+      · simp only [hcond, if_true]
+        refine ⟨hdata, ?_⟩
+        have hnil : r.drop n = [] := by
+          rcases hcond with hlt | hz
+          · have := h2 hlt
+            have hlen : r.length < n := by rw [hr, ← this]; exact hlt
+            exact List.drop_eq_nil_of_le (Nat.le_of_lt hlen)
+          · -- the whole requested length has been handed out
+            cases hl : a.length with
+            | none => rw [hl] at hz; simp at hz
+            | some l =>
+              rw [hl] at hz
+              simp only [Option.map, Option.some.injEq] at hz
+              have hrl : r.length ≤ l := by
+                rw [hw, hl]; simp [wanted, slice]; omega
+              have hdl : ((fill a.buffer cs n).1.take n).length ≤ n := by simp [List.length_take]; omega
+              rw [hdata] at hz hdl
+              exact List.drop_eq_nil_of_le (by omega)
+        simp [AzGood, hnil]
+      · simp only [hcond, if_false]
+        refine ⟨hdata, ?_⟩
+        have hlt : ¬ ((fill a.buffer cs n).1.take n).length < n := fun h => hcond (Or.inl h)
         have := h3 hlt
         have hlen : ((fill a.buffer cs n).1.take n).length = n := by
           rw [List.length_take] at hlt ⊢; omega
         simp only [AzGood, Bool.false_eq_true, if_false]
-        rw [hr, this, List.drop_append_of_le_length (by omega), List.drop_of_length_le (by omega)]
-        simp
+        refine ⟨?_, ?_⟩
+        · rw [hlen, wanted_advance, ← hw]
+        · rw [hr, this, List.drop_append_of_le_length (by omega), List.drop_of_length_le (by omega)]
+          simp
     cases hc : a.chunks with
     | some cs =>
       simp only [hc] at hg
       exact core cs a.log hg
     | none =>
       simp only [hc] at hg
-      obtain ⟨hb, hr⟩ := hg
       simp only [azDownload]
       by_cases ho : a.offset < blob.length
       · simp only [ho, if_true]
         apply core
-        rw [hb, hch, hr]; simp
+        rw [hg, hch, hw]; simp
       · simp only [ho, if_false]
-        rw [hr]; exact wanted_nil_of_le _ (by omega)
+        rw [hw]; exact wanted_nil_of_le _ (by omega)
 
-/-- `read(-1)` as the very first call on a range that starts inside the blob, or after the stream reached EOF -/
-theorem az_readAll_spec (blob : Blob) (a : AzSt) (r : Blob) (hg : AzGood blob a r)
-    (h : a.eof = true ∨ (a.chunks = none ∧ a.offset < blob.length)) :
+/-- `read(-1)` hands out everything that is left, in every state of the stream -/
+theorem az_readAll_spec (blob : Blob) (a : AzSt) (r : Blob) (hg : AzGood blob a r) :
     ∃ a', a.readAll blob = .ok r a' ∧ AzGood blob a' [] := by
   unfold AzGood at hg
   unfold AzSt.readAll
@@ -354,12 +381,15 @@ theorem az_readAll_spec (blob : Blob) (a : AzSt) (r : Blob) (hg : AzGood blob a 
   · simp only [he, if_true] at hg ⊢
     subst hg
     exact ⟨a, rfl, by simp [AzGood, he]⟩
-  · rcases h with h | ⟨hc, ho⟩
-    · exact absurd h he
-    · simp only [he, hc] at hg ⊢
-      obtain ⟨_, hr⟩ := hg
-      simp only [Bool.false_eq_true, if_false, azDownload, ho, if_true]
-      exact ⟨_, by rw [hr], by simp [AzGood]⟩
+  · simp only [he] at hg ⊢
+    obtain ⟨hw, _⟩ := hg
+    simp only [Bool.false_eq_true, if_false, azDownload]
+    by_cases ho : a.offset < blob.length
+    · simp only [ho, if_true]
+      exact ⟨_, by rw [hw], by simp [AzGood]⟩
+    · simp only [ho, if_false]
+      have : r = [] := by rw [hw]; exact wanted_nil_of_le _ (by omega)
+      exact ⟨_, by rw [this], by simp [AzGood]⟩
 
 /-! ### streams -/
 
@@ -375,7 +405,7 @@ def Good (w : Bool) (blob : Blob) : Stream → Blob → Prop
   | .azure a, r => AzGood blob a r
 
 theorem step_spec (w : Bool) (ch : Blob → List Blob) (hch : ∀ b, (ch b).flatten = b) (blob : Blob) (s : Stream) (r : Blob)
-    (c : Call) (hg : Good w blob s r) (hc : s.isAzure = true → c ≠ .readAll) :
+    (c : Call) (hg : Good w blob s r) :
     match step ch blob s c with
     | .ok b s' => ∃ r', r = b ++ r' ∧ Good w blob s' r' ∧ s'.isAzure = s.isAzure ∧
         (∀ n, c = .read n → b.length ≤ n ∧ (1 ≤ n → b = [] → r = [])) ∧
@@ -434,7 +464,11 @@ theorem step_spec (w : Bool) (ch : Blob → List Blob) (hch : ∀ b, (ch b).flat
   | azure a =>
     simp only [Good] at hg
     cases c with
-    | readAll => exact absurd rfl (hc rfl)
+    | readAll =>
+      simp only [step]
+      obtain ⟨a', ha, hg'⟩ := az_readAll_spec blob a r hg
+      rw [ha]
+      exact ⟨[], by simp, hg', rfl, by simp, by simp, fun _ _ => rfl⟩
     | read n =>
       simp only [step]
       have := az_read_spec ch hch blob a r hg n
@@ -482,7 +516,7 @@ theorem drainLoop_spec (w : Bool) (ch : Blob → List Blob) (hch : ∀ b, (ch b)
   | zero => intro s r acc _ h; omega
   | succ fuel ih =>
     intro s r acc hg hfuel st out s' h
-    have hs := step_spec w ch hch blob s r (.read n) hg (by intro _; simp)
+    have hs := step_spec w ch hch blob s r (.read n) hg
     simp only [drainLoop] at h
     cases hstep : step ch blob s (.read n) with
     | ok b s1 =>
@@ -516,18 +550,17 @@ theorem drainLoop_spec (w : Bool) (ch : Blob → List Blob) (hch : ∀ b, (ch b)
 
 theorem run_spec (w : Bool) (ch : Blob → List Blob) (hch : ∀ b, (ch b).flatten = b) (blob : Blob) :
     ∀ (ops : List Op) (s : Stream) (r acc : Blob), Good w blob s r → r.length ≤ blob.length →
-    (s.isAzure = true → ∀ op ∈ ops, op ≠ .call .readAll) →
     ∀ st out s', run ch blob s ops acc = (st, out, s') →
       ∃ d r', out = acc ++ d ∧ r = d ++ r' ∧ ((st = .ok ∧ Good w blob s' r' ∧ s'.isAzure = s.isAzure) ∨ st = .eof) := by
   intro ops
   induction ops with
   | nil =>
-    intro s r acc hg _ _ st out s' h
+    intro s r acc hg _ st out s' h
     simp only [run] at h
     obtain ⟨rfl, rfl, rfl⟩ := h
     exact ⟨[], r, by simp, by simp, Or.inl ⟨rfl, hg, rfl⟩⟩
   | cons op ops ih =>
-    intro s r acc hg hlen hsafe st out s' h
+    intro s r acc hg hlen st out s' h
     cases op with
     | drain n =>
       simp only [run] at h
@@ -540,8 +573,7 @@ theorem run_spec (w : Bool) (ch : Blob → List Blob) (hch : ∀ b, (ch b).flatt
         · simp only at h
           have hl : r'.length ≤ blob.length := by
             have := congrArg List.length hr; simp at this; omega
-          obtain ⟨d2, r2, ho2, hr2, hres2⟩ := ih s1 r' out1 hg' hl
-            (fun ha op hop => hsafe (by rw [← haz]; exact ha) op (List.mem_cons_of_mem _ hop)) st out s' h
+          obtain ⟨d2, r2, ho2, hr2, hres2⟩ := ih s1 r' out1 hg' hl st out s' h
           refine ⟨d ++ d2, r2, by rw [ho2, ho]; simp, by rw [hr, hr2]; simp, ?_⟩
           rcases hres2 with ⟨h1, h2, h3⟩ | h1
           · exact Or.inl ⟨h1, h2, h3.trans haz⟩
@@ -552,7 +584,6 @@ theorem run_spec (w : Bool) (ch : Blob → List Blob) (hch : ∀ b, (ch b).flatt
     | call c =>
       simp only [run] at h
       have hs := step_spec w ch hch blob s r c hg
-        (fun ha hc => hsafe ha (.call c) (List.mem_cons_self) (by rw [hc]))
       cases hstep : step ch blob s c with
       | ok b s1 =>
         rw [hstep] at hs h
@@ -560,8 +591,7 @@ theorem run_spec (w : Bool) (ch : Blob → List Blob) (hch : ∀ b, (ch b).flatt
         simp only at h
         have hl : r'.length ≤ blob.length := by
           have := congrArg List.length hr; simp at this; omega
-        obtain ⟨d2, r2, ho2, hr2, hres2⟩ := ih s1 r' (acc ++ b) hg' hl
-          (fun ha op hop => hsafe (by rw [← haz]; exact ha) op (List.mem_cons_of_mem _ hop)) st out s' h
+        obtain ⟨d2, r2, ho2, hr2, hres2⟩ := ih s1 r' (acc ++ b) hg' hl st out s' h
         refine ⟨b ++ d2, r2, by rw [ho2]; simp, by rw [hr, hr2]; simp, ?_⟩
         rcases hres2 with ⟨h1, h2, h3⟩ | h1
         · exact Or.inl ⟨h1, h2, h3.trans haz⟩
@@ -600,11 +630,11 @@ theorem run_append (ch : Blob → List Blob) (blob : Blob) : ∀ (pre post : Lis
 /-- the last call of a pattern is a drain loop with `n ≥ 1`, or a `read(-1)` on a stream that never reads short -/
 theorem run_last_complete (w : Bool) (ch : Blob → List Blob) (hch : ∀ b, (ch b).flatten = b) (blob : Blob) (s : Stream) (r acc : Blob)
     (last : Op) (hg : Good w blob s r) (hlen : r.length ≤ blob.length)
-    (hlast : (last = .call .readAll ∧ w = true ∧ s.isAzure = false) ∨ ∃ n, 1 ≤ n ∧ last = .drain n)
+    (hlast : (last = .call .readAll ∧ w = true) ∨ ∃ n, 1 ≤ n ∧ last = .drain n)
     (out : Blob) (s' : Stream) (h : run ch blob s [last] acc = (.ok, out, s')) : out = acc ++ r := by
-  rcases hlast with ⟨rfl, hw, haz⟩ | ⟨n, hn, rfl⟩
+  rcases hlast with ⟨rfl, hw⟩ | ⟨n, hn, rfl⟩
   · simp only [run] at h
-    have hs := step_spec w ch hch blob s r .readAll hg (by rw [haz]; simp)
+    have hs := step_spec w ch hch blob s r .readAll hg
     cases hstep : step ch blob s .readAll with
     | ok b s1 =>
       rw [hstep] at hs h
